@@ -378,6 +378,9 @@ class DocxGen:
     INLINE = ["run", "run-tab", "run-br", "run-cr", "run-sym", "hyperlink", "ins", "del", "sdt", "fldSimple",
               "smartTag", "textbox", "vml-textbox", "blank", "empty", "spaced", "field", "para-ac"]
 
+    # ECMA-376 17.3.3.1 CT_Br (type, clear), 17.3.3.23 CT_PTab (alignment, ...); CT_Empty for tab and cr
+    SEP_ATTRS = {"br": (None, "type", "clear"), "cr": (None,), "tab": (None,), "ptab": (None, "alignment")}
+
     def inline(self, p, kind):
         ctx, ref = self.ctx, self.ref
         if kind == "run":
@@ -387,6 +390,30 @@ class DocxGen:
             ET.SubElement(r, W + "t").text = ref.tok()
             ET.SubElement(r, W + kind[4:])
             ref.sep(kind)
+            ET.SubElement(r, W + "t").text = ref.tok()
+        elif kind == "run-sep-attr":
+            # a separator child of a run in its general form: element tab / br / cr / ptab, in the run of the text
+            # around it or in a run of its own, with or without an attribute whose VALUE is symbolic (w:type -
+            # ST_BrType page / column / textWrapping -, w:clear, w:alignment; any other value is covered as well).
+            # ECMA-376 17.3.3.1: every w:br ends the current line whatever its type (a page / column break also
+            # starts a new page / column), so the texts around it are separated in every case.
+            elems = ctx.params.get("sep_elems") or ("br", "cr", "tab", "ptab")
+            name = elems[ctx.choice(self.nm("sep_elem"), len(elems))]
+            own_run = ctx.flag(self.nm("sep_own_run"))
+            attrs = self.SEP_ATTRS[name]            # the attributes the schema gives the element
+            attr = attrs[ctx.choice(self.nm("sep_attr"), len(attrs))]
+            r = ET.SubElement(p, W + "r")
+            ET.SubElement(r, W + "t").text = ref.tok()
+            if own_run:
+                r = ET.SubElement(p, W + "r")
+            x = ET.SubElement(r, W + name)
+            if attr:
+                val = _sym_local(ctx, self.nm("sep_attr_value"), ctx.params.get("attr_lens", (4, 6, 12)))
+                x.set(W + attr, val)
+                ref.desc.append("w:%s w:%s=%s" % (name, attr, str(val)))
+            ref.sep("run-" + name, "sep-attr-" + str(attr), "sep-own-run" if own_run else "sep-in-run")
+            if own_run:
+                r = ET.SubElement(p, W + "r")
             ET.SubElement(r, W + "t").text = ref.tok()
         elif kind == "run-sym":
             lens = ctx.params.get("sym_lens", (1, 2, 3, 7))
@@ -638,6 +665,15 @@ def k1_docx(ctx):
         ctx.require(not (a in out and b in out and out.find(a) < out.find(b) and
                          any(ch.isspace() for ch in out[out.find(a) + len(a):out.find(b)])), "twin")
         return
+    elif ctx.perturb == "expect_merged_at_attributed_separator":
+        # twin: claim that the two texts around the separator element of a run-sep-attr item (tokens 2 and 3 of
+        # the document) are NOT separated by whitespace
+        toks = ref.tokens("body")
+        ctx.assume(len(toks) >= 3)
+        a, b = toks[1][1], toks[2][1]
+        ctx.require(not (a in out and b in out and out.find(a) < out.find(b) and
+                         any(ch.isspace() for ch in out[out.find(a) + len(a):out.find(b)])), "twin")
+        return
     _judge(ctx, "K1", ref, [("text", out)], info=info, only_token=only, rules=K1_RULES)
 
 
@@ -650,6 +686,18 @@ def _k1_parts(tier):
         # two items with every name length + three items with the short name lengths, split by the first item
         parts = [{"space": "inline", "M": 2, "sym_lens": lens, "first_inline": k} for k in DocxGen.INLINE]
         parts += [{"space": "inline", "M": 3, "sym_lens": (1, 3), "first_inline": k} for k in DocxGen.INLINE]
+    # separator element of a run in its general form (element x own run x attribute with symbolic value) first,
+    # any item after it
+    for elems in (("br",), ("cr", "tab", "ptab")):
+        if tier == "quick":
+            parts.append({"space": "inline", "M": 2, "sym_lens": lens, "first_inline": "run-sep-attr",
+                          "attr_lens": (4, 6, 12), "sep_elems": elems})
+        else:
+            wide = DocxGen.INLINE + ["run-sep-attr"]
+            parts.append({"space": "inline", "M": 2, "sym_lens": lens, "first_inline": "run-sep-attr",
+                          "attr_lens": (3, 4, 5, 6, 12, 13), "inline_kinds": wide, "sep_elems": elems})
+            parts.append({"space": "inline", "M": 3, "sym_lens": (1, 3), "first_inline": "run-sep-attr",
+                          "attr_lens": (4, 12), "sep_elems": elems})
     n = 2 if tier == "quick" else 3
     for first in DocxGen.BLOCKS:
         parts.append({"space": "blocks", "N": n, "first": first})
@@ -2657,10 +2705,18 @@ KERNELS = [
            perturb=[("fallback_is_body", {"space": "inline", "M": 1, "sym_lens": (1,), "first_inline": None,
                                           "inline_kinds": ["para-ac"]}),
                     ("expect_merged_paragraphs", {"space": "inline", "M": 1, "sym_lens": (1,), "first_inline": None,
-                                                  "inline_kinds": ["run"]})],
+                                                  "inline_kinds": ["run"]}),
+                    ("expect_merged_at_attributed_separator", {"space": "inline", "M": 1, "sym_lens": (1,),
+                                                               "first_inline": "run-sep-attr", "attr_lens": (4,)})],
            symbolic=["local name of one run child per run-sym item (length 1,2,3,7; thorough +4,9,12,13): the walker's "
-                     "own == / endswith tests split the names, the reference classifies them by ECMA-376 17.3.3"],
-           choices=["number and kind of inline items of the focus paragraph (run, run+tab/br/cr, hyperlink, ins, del, "
+                     "own == / endswith tests split the names, the reference classifies them by ECMA-376 17.3.3",
+                     "value of the attribute of a separator element (letters, length 4,6,12; thorough +3,5,13 - page, "
+                     "column, textWrapping, all, left ... and every other value): whatever test the walker applies to "
+                     "it splits the values; the reference (17.3.3.1: every break separates) does not depend on it"],
+           choices=["separator child of a run in general form: element br / cr / tab / ptab x in the run of the surrounding "
+                    "text or in a run of its own x no attribute / the schema's attributes (br: w:type, w:clear; ptab: w:alignment) (dedicated parts, any item "
+                    "after it, all three containers)",
+                    "number and kind of inline items of the focus paragraph (run, run+tab/br/cr, hyperlink, ins, del, "
                     "inline sdt, fldSimple, smartTag, DrawingML text box with VML fallback, VML text box, blank/empty "
                     "run, token with inner space, complex field, paragraph-level AlternateContent)",
                     "container of the focus paragraph (body, table cell, block-level sdt)",
